@@ -1,5 +1,7 @@
 """C14 - reversal and reverse-complement are involutions that commute with output."""
 
+from pathlib import Path
+
 from hypothesis import strategies as st
 
 from tola.assembly.fragment import Fragment
@@ -129,15 +131,28 @@ def body_stream(case, rec):
     rec.note(case, nt, ())
     sname = case.get("scaffold_name", "s").encode()
     s = Scaffold(case.get("scaffold_name", "s"), conv.mk_rows(rows))
-    with fa.TempFasta(data) as path:
-        fai = FastaIndex(path, buf)
+    import os
+
+    relative = bool(case.get("relative_path_chdir")) and any(r[0] == "F" for r in rows)
+    cwd = os.getcwd()
+    with fa.TempFasta(data) as path, fa.TempFasta(bytes(reversed(data)) if relative else b"") as elsewhere:
+        if relative:
+            # the index is created from a RELATIVE path; between the two streams the working directory changes to a
+            # directory that holds another file of the same name (the index object already has its file open)
+            os.chdir(path.parent)
+            fai = FastaIndex(Path(path.name), buf)
+        else:
+            fai = FastaIndex(path, buf)
         fai.index = fa.ref_index(data)
         try:
             from tola.assembly.assembly import Assembly
 
             fwd = must(fa.stream_bytes, fai, Assembly("a", scaffolds=[s]), 60, what="stream")
+            if relative:
+                os.chdir(elsewhere.parent)
             rev = must(fa.stream_bytes, fai, Assembly("a", scaffolds=[s.reverse()]), 60, what="stream reversed")
         finally:
+            os.chdir(cwd)
             fa.close(fai)
 
     def seq_of(b):
@@ -230,6 +245,8 @@ def stream_cases(draw):
             f["records"].append(twin)
             case["rows"] = [["F", src[0], 1, len(src[2]), 1]]
             case["scaffold_name"] = twin[0]
+    if draw(st.integers(0, 5)) == 0:
+        case["relative_path_chdir"] = True
     return case
 
 
